@@ -133,7 +133,13 @@ fn run_size(input: &Value) -> Value {
 
 fn script_for(svc: &str) -> Vec<Item> {
     let r = |fb| Item::Resp { len: 0, optlen: 0, fb };
+    let reconf = |halfticks: u32| {
+        Some(ServiceFeedback::Reconfigure { idle_timeout: Some(HALF * halfticks) })
+    };
     match svc {
+        "rlong" => vec![r(reconf(4))],
+        "rshort" => vec![r(reconf(1))],
+        "big" => vec![Item::Resp { len: 1840, optlen: 0, fb: None }],
         "single" => vec![r(None)],
         "stream2" => vec![r(None), r(None)],
         "fail" => vec![Item::Fail],
@@ -151,6 +157,9 @@ fn script_for(svc: &str) -> Vec<Item> {
 fn kind_of(d: &Value, want_q: Option<&Value>) -> &'static str {
     if d["parses"] != json!(true) || d["qr"] != json!(true) {
         return "bad";
+    }
+    if d["tc"] == json!(true) {
+        return "trunc";
     }
     if let Some(q) = want_q {
         if &d["q"] != q {
@@ -325,11 +334,21 @@ fn run_dgram(input: &Value) -> Value {
                         "short" => vec![idb[0], idb[1]],
                         "shortqr" => vec![idb[0], idb[1], 0x80],
                         "reply" => mk_query(id, 9 + r as usize, None, true),
+                        _ if op["svc"].as_str() == Some("big") => {
+                            mk_query(id, 9 + r as usize, Some(4096), false)
+                        }
                         _ => mk_query(id, 9 + r as usize, None, false),
                     };
                     sock.deliver(&bytes, from);
                 }
                 "release" => svc.release(id),
+                "reconf" => {
+                    let mut cfg = dgram::Config::new();
+                    cfg.set_max_response_size(Some(r));
+                    let _ = srv.reconfigure(cfg);
+                }
+                "spurious" => sock.spurious_readable(),
+                "senderr" => sock.fail_next_send(),
                 _ => {}
             }
             settle().await;
